@@ -1,6 +1,396 @@
-//! C19 — not built yet.
-use vcommon::Args;
+//! C19 — every method call receives its own reply and only its own reply.
+//!
+//! A real connection faces a scripted peer. Callers are root tasks; the peer's emissions (reply or
+//! error to any call it has seen, a stray reply with an unknown serial, an unrelated signal, EOF)
+//! and virtual timer expiry are environment events. All orders are explored by DFS with a
+//! deviation bound.
 
-pub fn main(_args: &Args) -> i32 {
-    vcommon::machinery_failure("C19: check not built yet")
+use std::{collections::BTreeMap, sync::Mutex, time::Duration};
+
+use serde_json::json;
+use vcommon::{Args, Report};
+use zbus::{connection::Builder, message::Type, Message};
+
+use crate::{
+    explore::ExecResult,
+    sched::{finish_model_checking, run_scenario, v, SchedPlan, Totals},
+    world::{parse_message, split_messages, Handle, Link, SockCfg, Step, World, GUID},
+};
+
+#[derive(Clone, Copy, Debug)]
+struct Params {
+    callers: usize,
+    noreply: bool,
+    timeout: bool,
+    eof: bool,
+    /// number of inbound queue slots for replies (DEFAULT_MAX_METHOD_RETURN_QUEUED is 8); extra
+    /// stray replies are used to fill it
+    strays: usize,
+}
+
+#[derive(Clone, Debug, PartialEq)]
+enum Env {
+    Reply(usize),
+    Error(usize),
+    Stray,
+    Signal,
+    Eof,
+    Timer(usize),
+}
+
+#[derive(Debug)]
+enum CallResult {
+    Ok { reply_serial: Option<u32>, mtype: Type },
+    MethodError { reply_serial: Option<u32>, name: String },
+    OtherErr(String),
+}
+
+fn scenario(p: Params) -> ExecResult {
+    let mut w = World::new();
+    w.horizon = 300;
+    let link = Link::new();
+    let sock = link.end_a(SockCfg::default());
+    let timeout = p.timeout;
+    let conn = w
+        .complete("build", async move {
+            let mut b = Builder::authenticated_socket(sock, GUID)
+                .unwrap()
+                .p2p()
+                .internal_executor(false);
+            if timeout {
+                b = b.method_timeout(Duration::from_secs(5));
+            }
+            b.build().await.unwrap()
+        })
+        .expect("build");
+    // callers
+    let mut callers: Vec<Handle<CallResult>> = vec![];
+    for i in 0..p.callers {
+        let c = conn.clone();
+        callers.push(w.spawn(&format!("caller{i}"), async move {
+            match c
+                .call_method(None::<&str>, "/p", Some("a.b"), format!("M{i}").as_str(), &())
+                .await
+            {
+                Ok(m) => CallResult::Ok {
+                    reply_serial: m.header().reply_serial().map(|s| s.get()),
+                    mtype: m.message_type(),
+                },
+                Err(zbus::Error::MethodError(name, _, m)) => CallResult::MethodError {
+                    reply_serial: m.header().reply_serial().map(|s| s.get()),
+                    name: name.to_string(),
+                },
+                Err(e) => CallResult::OtherErr(e.to_string()),
+            }
+        }));
+    }
+    let noreply: Option<Handle<Result<(), String>>> = if p.noreply {
+        let c = conn.clone();
+        Some(w.spawn("noreply", async move {
+            let proxy = zbus::proxy::Builder::<zbus::Proxy<'_>>::new(&c)
+                .destination("a.b")
+                .unwrap()
+                .path("/p")
+                .unwrap()
+                .interface("a.b")
+                .unwrap()
+                .cache_properties(zbus::proxy::CacheProperties::No)
+                .build()
+                .await
+                .map_err(|e| e.to_string())?;
+            proxy.call_noreply("N", &()).await.map_err(|e| e.to_string())
+        }))
+    } else {
+        None
+    };
+
+    // peer state
+    let mut seen: BTreeMap<usize, u32> = BTreeMap::new(); // caller -> serial (from the wire)
+    let mut answered: BTreeMap<usize, &'static str> = BTreeMap::new();
+    let mut strays = 0usize;
+    let mut signal_sent = false;
+    let mut eof = false;
+    let mut timers_fired: Vec<usize> = vec![];
+    let mut noreply_seen_on_wire = false;
+    let mut inbound_before_noreply_done = 0usize;
+    let mut noreply_done_logged = false;
+    let mut wire_cursor = 0usize;
+    let mut peer_serial = 1000u32;
+
+    loop {
+        // observe what the connection wrote
+        let out = link.a2b.written();
+        let (msgs, _) = split_messages(&out[wire_cursor..]);
+        let mut adv = 0;
+        for r in &msgs {
+            if let Ok(m) = parse_message(&out[wire_cursor + r.start..wire_cursor + r.end]) {
+                let h = m.header();
+                if let Some(mem) = h.member() {
+                    let mem = mem.as_str();
+                    if let Some(i) = mem.strip_prefix('M').and_then(|s| s.parse::<usize>().ok()) {
+                        seen.insert(i, m.primary_header().serial_num().get());
+                    }
+                    if mem == "N" {
+                        noreply_seen_on_wire = true;
+                    }
+                }
+            }
+            adv = r.end;
+        }
+        wire_cursor += adv;
+        if let Some(h) = &noreply {
+            if h.is_done() && !noreply_done_logged {
+                noreply_done_logged = true;
+                w.obs(format!(
+                    "noreply call completed; inbound messages delivered before: {inbound_before_noreply_done}"
+                ));
+            }
+        }
+        let all_done = callers.iter().all(|c| c.is_done())
+            && noreply.as_ref().map(|h| h.is_done()).unwrap_or(true);
+        if all_done {
+            break;
+        }
+        // environment menu
+        let mut menu: Vec<Env> = vec![];
+        if !eof {
+            for (i, _) in seen.iter() {
+                if !answered.contains_key(i) {
+                    menu.push(Env::Reply(*i));
+                    menu.push(Env::Error(*i));
+                }
+            }
+            if strays < p.strays {
+                menu.push(Env::Stray);
+            }
+            if !signal_sent {
+                menu.push(Env::Signal);
+            }
+            if p.eof {
+                menu.push(Env::Eof);
+            }
+        }
+        if p.timeout {
+            for (id, _) in zbus::verif::pending_timers() {
+                if !timers_fired.contains(&id) {
+                    menu.push(Env::Timer(id));
+                }
+            }
+        }
+        match w.step(menu.len()) {
+            Step::Ran(_) => {}
+            Step::Env(k) => {
+                let e = menu[k].clone();
+                w.obs(format!("env {e:?}"));
+                if !noreply_done_logged && !matches!(e, Env::Timer(_) | Env::Eof) {
+                    inbound_before_noreply_done += 1;
+                }
+                peer_serial += 1;
+                match e {
+                    Env::Reply(i) | Env::Error(i) => {
+                        let serial = seen[&i];
+                        // build a reply from a fake call header carrying that serial
+                        let call = Message::method_call("/p", format!("M{i}").as_str())
+                            .unwrap()
+                            .interface("a.b")
+                            .unwrap()
+                            .build(&())
+                            .unwrap();
+                        let mut bytes = call.data().bytes().to_vec();
+                        bytes[8..12].copy_from_slice(&serial.to_le_bytes());
+                        let call = parse_message(&bytes).unwrap();
+                        let m = if matches!(e, Env::Reply(_)) {
+                            answered.insert(i, "return");
+                            Message::method_return(&call.header()).unwrap().build(&(i as u32,)).unwrap()
+                        } else {
+                            answered.insert(i, "error");
+                            Message::error(&call.header(), "a.b.Err").unwrap().build(&("boom",)).unwrap()
+                        };
+                        link.b2a.push(m.data().bytes(), vec![]);
+                    }
+                    Env::Stray => {
+                        strays += 1;
+                        let call = Message::method_call("/p", "X").unwrap().build(&()).unwrap();
+                        let mut bytes = call.data().bytes().to_vec();
+                        bytes[8..12].copy_from_slice(&(900_000u32 + strays as u32).to_le_bytes());
+                        let call = parse_message(&bytes).unwrap();
+                        let m = Message::method_return(&call.header()).unwrap().build(&(99u32,)).unwrap();
+                        link.b2a.push(m.data().bytes(), vec![]);
+                    }
+                    Env::Signal => {
+                        signal_sent = true;
+                        let m = Message::signal("/p", "a.b", "Sig").unwrap().build(&(1u32,)).unwrap();
+                        link.b2a.push(m.data().bytes(), vec![]);
+                    }
+                    Env::Eof => {
+                        eof = true;
+                        link.b2a.set_eof();
+                    }
+                    Env::Timer(id) => {
+                        timers_fired.push(id);
+                        zbus::verif::fire_timer(id);
+                    }
+                }
+            }
+            Step::Quiescent | Step::Horizon => break,
+        }
+    }
+
+    // oracle
+    let mut res = ExecResult {
+        capped: w.hit_horizon,
+        steps: w.steps,
+        ..Default::default()
+    };
+    for (i, c) in callers.iter().enumerate() {
+        let serial = seen.get(&i).cloned();
+        let out = c.take();
+        w.obs(format!(
+            "caller{i}: sent={} answered={:?} result={}",
+            serial.is_some(),
+            answered.get(&i),
+            match &out {
+                None => "pending".to_string(),
+                Some(CallResult::Ok { .. }) => "return".into(),
+                Some(CallResult::MethodError { .. }) => "method-error".into(),
+                Some(CallResult::OtherErr(e)) =>
+                    if e.contains("timed out") { "timeout".into() } else { "io-error".into() },
+            }
+        ));
+        match (&out, answered.get(&i)) {
+            (Some(CallResult::Ok { reply_serial, mtype }), a) => {
+                if *reply_serial != serial || *mtype != Type::MethodReturn || a != Some(&"return") {
+                    res.violations.push(
+                        v("own-reply-only", format!("caller{i} (serial {serial:?}) completed with a return carrying reply_serial {reply_serial:?}; the peer had answered it with {a:?}"))
+                            .feat("kind", "wrong-return"),
+                    );
+                }
+            }
+            (Some(CallResult::MethodError { reply_serial, name }), a) => {
+                if *reply_serial != serial || name != "a.b.Err" || a != Some(&"error") {
+                    res.violations.push(
+                        v("own-reply-only", format!("caller{i} (serial {serial:?}) completed with error {name} carrying reply_serial {reply_serial:?}; the peer had answered it with {a:?}"))
+                            .feat("kind", "wrong-error"),
+                    );
+                }
+            }
+            (Some(CallResult::OtherErr(e)), a) => {
+                // an I/O or timeout error is legitimate only if the connection failed or the
+                // timer fired
+                let timed_out = e.contains("timed out");
+                if timed_out && timers_fired.is_empty() {
+                    res.violations.push(v("own-reply-only", format!("caller{i} timed out but no timer fired")).feat("kind", "spurious-timeout"));
+                } else if !timed_out && !eof {
+                    res.violations.push(
+                        v("own-reply-only", format!("caller{i} failed with `{e}` although the transport is fine (answered: {a:?})"))
+                            .feat("kind", "spurious-error"),
+                    );
+                }
+            }
+            (None, a) => {
+                if w.hit_horizon {
+                    continue;
+                }
+                // still pending at quiescence
+                if a.is_some() {
+                    res.violations.push(
+                        v("completes-exactly-once", format!("caller{i}: its {a:?} was delivered, nothing is runnable, but the call never completed; trace={:?}", w.trace))
+                            .feat("kind", "reply-lost"),
+                    );
+                } else if eof {
+                    res.violations.push(
+                        v("completed-on-connection-failure", format!("caller{i} is still pending after EOF and nothing is runnable; trace={:?}", w.trace))
+                            .feat("kind", "hang-after-eof"),
+                    );
+                } else if !timers_fired.is_empty() && serial.is_some() && p.callers == 1 {
+                    res.violations.push(
+                        v("completed-on-timeout", format!("caller{i} is still pending after its timer fired; trace={:?}", w.trace))
+                            .feat("kind", "hang-after-timeout"),
+                    );
+                }
+            }
+        }
+    }
+    if let Some(h) = &noreply {
+        match h.take() {
+            Some(Ok(())) => {}
+            Some(Err(e)) => {
+                if !eof {
+                    res.violations.push(v("noreply-completes-without-waiting", format!("no-reply call failed: {e}")).feat("kind", "noreply-error"));
+                }
+            }
+            None => {
+                if !w.hit_horizon && noreply_seen_on_wire {
+                    res.violations.push(
+                        v("noreply-completes-without-waiting", format!("the no-reply call was sent but never completed; trace={:?}", w.trace))
+                            .feat("kind", "noreply-hang"),
+                    );
+                }
+            }
+        }
+    }
+    res.log = std::mem::take(&mut w.log);
+    drop(conn);
+    res
+}
+
+pub fn main(args: &Args) -> i32 {
+    let report = Report::new("C19", args.tier, args.seed, "model_checking");
+    let totals = Mutex::new(Totals::default());
+    let quick = args.tier == vcommon::Tier::Quick;
+    let scenarios: Vec<(&str, Params, Vec<Option<usize>>)> = vec![
+        (
+            "two-callers",
+            Params { callers: 2, noreply: false, timeout: false, eof: true, strays: 1 },
+            if quick { vec![Some(2), Some(3), Some(4), Some(5)] } else { vec![Some(3), Some(4), Some(5), Some(6), None] },
+        ),
+        (
+            "two-callers-noreply",
+            Params { callers: 2, noreply: true, timeout: false, eof: false, strays: 0 },
+            if quick { vec![Some(2), Some(3), Some(4)] } else { vec![Some(3), Some(4), Some(5), Some(6)] },
+        ),
+        (
+            "three-callers",
+            Params { callers: 3, noreply: false, timeout: false, eof: true, strays: 1 },
+            if quick { vec![Some(2), Some(3), Some(4)] } else { vec![Some(3), Some(4), Some(5), Some(6)] },
+        ),
+        (
+            "timeout-one-caller",
+            Params { callers: 1, noreply: false, timeout: true, eof: true, strays: 1 },
+            if quick { vec![Some(3), None] } else { vec![None] },
+        ),
+        (
+            "timeout-two-callers",
+            Params { callers: 2, noreply: false, timeout: true, eof: false, strays: 0 },
+            if quick { vec![Some(2), Some(3), Some(4)] } else { vec![Some(3), Some(4), Some(5), Some(6)] },
+        ),
+        (
+            "queue-pressure",
+            // more stray replies than the method-return queue holds (8)
+            Params { callers: 2, noreply: false, timeout: false, eof: false, strays: 10 },
+            if quick { vec![Some(1), Some(2), Some(3)] } else { vec![Some(2), Some(3), Some(4), Some(5)] },
+        ),
+    ];
+    for (name, p, bounds) in scenarios {
+        let plan = SchedPlan {
+            bounds,
+            max_execs: args.tier.pick(3_000_000, 60_000_000),
+            time_budget_s: args.tier.pick(6.0, 150.0),
+        };
+        run_scenario(
+            &report,
+            &totals,
+            name,
+            json!({"callers": p.callers, "noreply": p.noreply, "timeout": p.timeout, "eof": p.eof, "strays": p.strays}),
+            &plan,
+            move || scenario(p),
+        );
+    }
+    report.assume("interleaving granularity is one task poll; the transport accepts whole writes in this check (partial writes are C18)");
+    report.assume("the peer only answers calls it has completely received (it reads serial numbers off the wire)");
+    finish_model_checking(
+        &report,
+        &totals,
+        "all orders of caller polls, socket-reader polls and peer emissions (return/error per seen call, stray reply, signal, EOF, virtual timer expiry) up to the completed deviation bound",
+    )
 }
